@@ -14,7 +14,12 @@ import (
 
 // gen.go: scenario generation, the retry loop that pins the Go map iteration orders, case output.
 
-const maxAttempts = 400
+const (
+	maxAttempts = 5000
+	// when this many attempts flushed a mail and none of them wrote the view storage first, the
+	// implementation orders the storages (the repaired FlushBundles): the order is taken as it comes
+	giveUpAfter = 80
+)
 
 type caseDesc struct {
 	Scenario scenario `json:"scenario"`
@@ -57,11 +62,21 @@ func genScenario(rng *kit.Rng) scenario {
 // canonical ones of the scenario (so that a fixed seed gives the same trace on every run)
 func runCase(bubble func(func()), sc scenario) *driver {
 	var d *driver
+	mailAttempts, sawViewFirst := 0, false
 	for attempt := 0; attempt < maxAttempts; attempt++ {
 		ok := false
-		bubble(func() { d, ok = runOnce(sc, attempt == maxAttempts-1) })
+		last := attempt == maxAttempts-1 || (mailAttempts >= giveUpAfter && !sawViewFirst)
+		bubble(func() { d, ok = runOnce(sc, last) })
+		if d.mailFlushes > 0 {
+			mailAttempts++
+		}
+		for _, o := range d.orderSeen {
+			if o == "view-first" {
+				sawViewFirst = true
+			}
+		}
 		if ok {
-			if attempt == maxAttempts-1 && d.wrongOrder {
+			if last && d.wrongOrder {
 				d.tag("map-order:not-canonical")
 			}
 			break
